@@ -3,6 +3,7 @@
 package cache
 
 import (
+	"bytes"
 	"compress/gzip"
 	"crypto/sha256"
 	"encoding/gob"
@@ -234,7 +235,14 @@ func (bc *BuildCache) deserialize(c Cacheable, srcModTime time.Time, r io.Reader
 		}
 	}()
 
-	gd := gob.NewDecoder(zr)
+	// Decompress everything first: gzip verifies its checksum only at the end
+	// of the stream, and a damaged file must be a miss, not damaged contents.
+	data, err := io.ReadAll(zr)
+	if err != nil {
+		return buildTime, false, err
+	}
+
+	gd := gob.NewDecoder(bytes.NewReader(data))
 	if err := gd.Decode(&buildTime); err != nil {
 		return buildTime, false, err
 	}
